@@ -154,7 +154,7 @@ def rule_MP3(rep, prog, g):
 
 def rule_MP4(rep, prog, g):
     rid = rep.rule("C07-MP4", "dispatch_group_wait returns 0 only when it observed count == 0 (acquire fence) or, in the slow path, a generation change "
-                   "re-read with acquire after the kernel wait; it reports a timeout only for timeout == 0 or rc == ETIMEDOUT", floor=4)
+                   "re-read with acquire after the kernel wait; it reports a timeout only for timeout == 0 or rc == ETIMEDOUT", floor=6)
     ET = g["ETIMEDOUT"]
     # the blocking part is _dispatch_group_wait_slow, or - when that helper was merged into its caller - everything in dispatch_group_wait from the
     # kernel wait on
@@ -202,6 +202,22 @@ def rule_MP4(rep, prog, g):
                         "dispatch_group_wait returns non-zero before the full timeout elapsed (path %s)" % (fn.name, path), sample={"returns": "timeout", "path": path})
     if not seen0 or not seent:
         rep.unknown(rid, "expected success and timeout returns after the kernel wait in %s (%d/%d)" % (fn.name, seen0, seent))
+    # the relative timeout handed to the kernel is the whole of the caller's: seconds = ns / 10^9, nanoseconds = ns % 10^9, both at full width
+    fw = prog.fn("_dispatch_wait_on_address", required=False)
+    if fw is None:
+        rep.unknown(rid, "anchor vanished: _dispatch_wait_on_address not found")
+    else:
+        rep.saw(fw)
+        for fld, op_ in (("tv_sec", "udiv"), ("tv_nsec", "urem")):
+            sts = [st for st in fw.all_insts() if st.op == "store" and fld in prog.fields(st)]
+            okw = bool(sts)
+            for st in sts:
+                v = fw.inst(st.ops[0])
+                okw = okw and v is not None and v.op == op_ and v.d.get("ty") == "i64" and v.ops[1][0] == "c" and v.ops[1][1] == 1000000000
+            rep.require(rid, okw, sts[0].loc if sts else fw.file, fw.name, "wait-timeout-split:%s" % fld,
+                        "_dispatch_wait_on_address does not store %s as the full 64-bit %s of the nanosecond timeout by 10^9: part of the timeout is dropped, the kernel "
+                        "reports ETIMEDOUT early and dispatch_group_wait returns non-zero before its timeout although the group may still complete in time"
+                        % (fld, "quotient" if op_ == "udiv" else "remainder"), sample={"field": fld})
     # fast path
     fn = prog.fn("dispatch_group_wait")
     rep.saw(fn)
